@@ -432,57 +432,56 @@ def do_step(ctx, v, kind, container, pows=(1, 2), dirs=(None,), inds=()):
     tol1 = R9 * max(n * vmax, Fraction(1, 10**300))
     emin = min(spec1)
     near = [k for k in range(n) if spec1[k] <= emin + 2 * tol1]
+    def level_ok(g, part):
+        g = float(g)
+        if not part:
+            return math.isnan(g)
+        return (not math.isnan(g)) and abs(fr(g) - fmean(part)) <= R9 * vmax
+
+    def cmp_levels(outs, val):
+        for name, tok, g in (('pre', outs[0][0], val[0]), ('post', outs[1][0], val[1])):
+            g = float(g)
+            if tok == 'nan' or math.isnan(g):
+                if not (tok == 'nan' and math.isnan(g)):
+                    return f"{name}: impl={g!r} model={tok}"
+                continue
+            m = fr(p_rats([tok])[0])
+            if abs(fr(g) - m) > R9 * vmax:
+                return f"{name}: impl={g!r} model={float(m)!r}"
+        return None
+
     for ind in (None,) + tuple(inds):
         arg = as_input(v, container)
         res = call_impl(calc_step_fn_steps_vals, arg, ind) if ind is not None else call_impl(calc_step_fn_steps_vals, arg)
         inputs = {**base_inputs, 'ind': ind}
-        used = ind
-        if ind is None:
-            # the split the implementation itself uses (argmin of its own p=1 error)
-            e_impl = call_impl(calc_step_fn_vals_error, as_input(v, container))
-            used = int(np.argmin(e_impl[1])) if e_impl[0] == 'ok' else None
-            ctx.oracle('C20.e default split sample minimises the p=1 step-function error', used is not None and used in near, inputs,
-                       detail={'split_used': used, 'exact_minimisers': near[:10], 'exact_errors': [float(x) for x in spec1[:12]]},
-                       facts={'fn': 'calc_step_fn_steps_vals', 'container': container})
-        if ind is None and len(near) > 1:
-            # an exact tie (or one within rounding): the model's first minimiser need not be the float one;
-            # the correspondence is then made at the split the implementation used
-            ctx.hist('step/default-split-tie')
-            req = None if used is None else f"step_levels|{w_rats(v)}|T|{used}"
-        elif ind is None:
-            req = f"step_levels|{w_rats(v)}|F|"
-        else:
-            req = f"step_levels|{w_rats(v)}|T|{ind}"
-
-        def compare(outs, val):
-            for name, tok, g in (('pre', outs[0][0], val[0]), ('post', outs[1][0], val[1])):
-                g = float(g)
-                if tok == 'nan' or math.isnan(g):
-                    if not (tok == 'nan' and math.isnan(g)):
-                        return f"{name}: impl={g!r} model={tok}"
-                    continue
-                m = fr(p_rats([tok])[0])
-                if abs(fr(g) - m) > R9 * vmax:
-                    return f"{name}: impl={g!r} model={float(m)!r}"
-            return None
-        if req is not None:
-            ctx.corr('calc_step_fn_steps_vals', req, res, compare, inputs=inputs)
         if res[0] != 'ok':
+            ctx.corr('calc_step_fn_steps_vals', f"step_levels|{w_rats(v)}|{'F|' if ind is None else 'T|' + str(ind)}", res, cmp_levels, inputs=inputs)
             ctx.oracle('C20.e calc_step_fn_steps_vals returns two levels for a non-empty input', False, inputs, detail=res)
             continue
-        if used is None or not (0 <= used < n):
-            continue       # explicit out-of-range / negative ind: Python slicing, covered by the correspondence only
-        pre, post = float(res[1][0]), float(res[1][1])
-        for name, g, part in (('before', pre, fv[:used]), ('after', post, fv[used + 1:])):
-            if not part:
-                ok = math.isnan(g)
-                want = 'nan'
+        if ind is None:
+            # default split: the reported levels must be the side means of SOME split sample that minimises the exact p=1 error
+            # (`near`: the minimisers, including splits that tie with the minimum to within the rounding budget)
+            hits = [k for k in near if level_ok(res[1][0], fv[:k]) and level_ok(res[1][1], fv[k + 1:])]
+            ctx.oracle('C20.e default: reported levels are the means of the samples strictly before / after a split sample that minimises '
+                       'the p=1 step-function error', bool(hits), inputs,
+                       detail={'got': [float(res[1][0]), float(res[1][1])], 'exact_minimisers': near[:10],
+                               'exact_errors': [float(x) for x in spec1[:12]]},
+                       facts={'fn': 'calc_step_fn_steps_vals', 'container': container})
+            if len(near) > 1:
+                # exact tie (or one within rounding): the model's first minimiser need not be the float one; the correspondence is
+                # then made at the minimiser the implementation's levels belong to
+                ctx.hist('step/default-split-tie')
+                req = f"step_levels|{w_rats(v)}|T|{hits[0]}" if hits else f"step_levels|{w_rats(v)}|F|"
             else:
-                want = fmean(part)
-                ok = (not math.isnan(g)) and abs(fr(g) - want) <= R9 * vmax
-                want = float(want)
-            ctx.oracle(f'C20.e reported step level == mean of the samples strictly {name} the split sample', ok, {**inputs, 'split': used},
-                       detail={'got': g, 'want': want})
+                req = f"step_levels|{w_rats(v)}|F|"
+            ctx.corr('calc_step_fn_steps_vals', req, res, cmp_levels, inputs=inputs)
+            continue
+        ctx.corr('calc_step_fn_steps_vals', f"step_levels|{w_rats(v)}|T|{ind}", res, cmp_levels, inputs=inputs)
+        if not (0 <= ind < n):
+            continue       # explicit out-of-range / negative ind: Python slicing, covered by the correspondence only
+        for name, g, part in (('before', res[1][0], fv[:ind]), ('after', res[1][1], fv[ind + 1:])):
+            ctx.oracle(f'C20.e reported step level == mean of the samples strictly {name} the split sample', level_ok(g, part),
+                       {**inputs, 'split': ind}, detail={'got': float(g), 'want': float(fmean(part)) if part else 'nan'})
 
 
 def gen_step(ctx):
